@@ -14,6 +14,8 @@ open EtVerif EtVerif.Fe Scalar
 
 variable {α : Type} [Scalar α]
 
+set_option linter.unusedSectionVars false
+
 /-! ### generic list facts -/
 
 /-- `List.mapM` in `Option` succeeds iff every element is mapped, pointwise. -/
@@ -110,5 +112,382 @@ theorem foldl_max_attained {γ : Type} (f : γ → Nat) (l : List γ) (a : Nat) 
       · right; exact ⟨y, by simp, Nat.max_eq_right h1⟩
       · left; exact Nat.max_eq_left h1
     · right; exact ⟨x, by simp [hx], h⟩
+
+/-! ### first-appearance order and the CLI name table -/
+
+/-- one step of the name table: append the name unless it is already present -/
+def faStep (acc : List String) (n : String) : List String := if n ∈ acc then acc else acc ++ [n]
+
+/-- the table after seeing `names`, starting from `tbl` -/
+def faFrom (tbl : List String) (names : List String) : List String := names.foldl faStep tbl
+
+/-- duplicates removed, first occurrences kept -/
+def firstAppearance (names : List String) : List String := faFrom [] names
+
+@[simp] theorem faFrom_nil (tbl : List String) : faFrom tbl [] = tbl := rfl
+@[simp] theorem faFrom_cons (tbl : List String) (n : String) (ns : List String) :
+    faFrom tbl (n :: ns) = faFrom (faStep tbl n) ns := rfl
+
+theorem faFrom_append (tbl a b : List String) : faFrom tbl (a ++ b) = faFrom (faFrom tbl a) b := by
+  unfold faFrom; rw [List.foldl_append]
+
+theorem faStep_prefix (acc : List String) (n : String) : acc <+: faStep acc n := by
+  unfold faStep; split
+  · exact List.prefix_refl _
+  · exact List.prefix_append _ _
+
+theorem mem_faStep {acc : List String} {n x : String} : x ∈ faStep acc n ↔ x ∈ acc ∨ x = n := by
+  unfold faStep; split
+  · rename_i h
+    constructor
+    · exact Or.inl
+    · rintro (h' | rfl)
+      · exact h'
+      · exact h
+  · simp
+
+theorem faStep_nodup {acc : List String} (h : acc.Nodup) (n : String) : (faStep acc n).Nodup := by
+  unfold faStep; split
+  · exact h
+  · rename_i hn
+    rw [List.nodup_append]
+    refine ⟨h, List.nodup_singleton _, ?_⟩
+    intro a ha b hb
+    rw [List.mem_singleton] at hb
+    subst hb
+    rintro rfl
+    exact hn ha
+
+theorem faFrom_prefix (tbl names : List String) : tbl <+: faFrom tbl names := by
+  induction names generalizing tbl with
+  | nil => exact List.prefix_refl _
+  | cons n ns ih => exact (faStep_prefix tbl n).trans (ih _)
+
+theorem mem_faFrom {tbl names : List String} {x : String} :
+    x ∈ faFrom tbl names ↔ x ∈ tbl ∨ x ∈ names := by
+  induction names generalizing tbl with
+  | nil => simp
+  | cons n ns ih =>
+    rw [faFrom_cons, ih, mem_faStep, List.mem_cons]
+    constructor
+    · rintro ((h | h) | h)
+      · exact Or.inl h
+      · exact Or.inr (Or.inl h)
+      · exact Or.inr (Or.inr h)
+    · rintro (h | h | h)
+      · exact Or.inl (Or.inl h)
+      · exact Or.inl (Or.inr h)
+      · exact Or.inr h
+
+theorem faFrom_nodup {tbl : List String} (h : tbl.Nodup) (names : List String) :
+    (faFrom tbl names).Nodup := by
+  induction names generalizing tbl with
+  | nil => exact h
+  | cons n ns ih => exact ih (faStep_nodup h n)
+
+/-- on a duplicate-free continuation nothing is dropped -/
+theorem faFrom_of_nodup (acc l : List String) (h : (acc ++ l).Nodup) : faFrom acc l = acc ++ l := by
+  induction l generalizing acc with
+  | nil => simp
+  | cons x l ih =>
+    have hx : x ∉ acc := by
+      intro hx
+      rw [List.nodup_append] at h
+      exact h.2.2 x hx x (by simp) rfl
+    have : faStep acc x = acc ++ [x] := by unfold faStep; rw [if_neg hx]
+    rw [faFrom_cons, this, ih _ (by simpa using h)]
+    simp
+
+/-- continuing from a duplicate-free table = first appearance of the concatenated stream -/
+theorem faFrom_eq_firstAppearance {tbl : List String} (h : tbl.Nodup) (names : List String) :
+    faFrom tbl names = firstAppearance (tbl ++ names) := by
+  unfold firstAppearance
+  rw [faFrom_append, faFrom_of_nodup [] tbl (by simpa using h)]
+  simp
+
+theorem firstAppearance_nodup (l : List String) : (firstAppearance l).Nodup :=
+  faFrom_nodup List.nodup_nil l
+
+theorem mem_firstAppearance {l : List String} {x : String} : x ∈ firstAppearance l ↔ x ∈ l := by
+  unfold firstAppearance; rw [mem_faFrom]; simp
+
+theorem firstAppearance_append_singleton (l : List String) (x : String) :
+    firstAppearance (l ++ [x]) = faStep (firstAppearance l) x := by
+  unfold firstAppearance; rw [faFrom_append]; rfl
+
+/-- the surviving names are ordered by their first position in the stream -/
+theorem firstAppearance_ordered (l : List String) :
+    (firstAppearance l).Pairwise (fun a b => l.idxOf a < l.idxOf b) := by
+  induction l using List.reverseRecOn with
+  | nil => exact List.Pairwise.nil
+  | append_singleton l x ih =>
+    rw [firstAppearance_append_singleton]
+    have hmono : (firstAppearance l).Pairwise
+        (fun a b => (l ++ [x]).idxOf a < (l ++ [x]).idxOf b) := by
+      refine List.Pairwise.imp_of_mem ?_ ih
+      intro a b ha hb hab
+      rw [List.idxOf_append_of_mem (mem_firstAppearance.mp ha),
+        List.idxOf_append_of_mem (mem_firstAppearance.mp hb)]
+      exact hab
+    unfold faStep
+    split
+    · exact hmono
+    · rename_i hx
+      rw [List.pairwise_append]
+      refine ⟨hmono, List.pairwise_singleton _ _, ?_⟩
+      intro a ha b hb
+      rw [List.mem_singleton] at hb
+      subst hb
+      have hbl : b ∉ l := fun h => hx (mem_firstAppearance.mpr h)
+      have hal := mem_firstAppearance.mp ha
+      rw [List.idxOf_append_of_mem hal, List.idxOf_append_of_notMem hbl]
+      have := List.idxOf_lt_length_of_mem hal
+      simp
+      omega
+
+/-- the position of a present name does not change when the table is extended -/
+theorem idxOf_of_prefix {l1 l2 : List String} (hp : l1 <+: l2) {a : String} (ha : a ∈ l1) :
+    l2.idxOf a = l1.idxOf a := by
+  obtain ⟨t, rfl⟩ := hp
+  exact List.idxOf_append_of_mem ha
+
+theorem getElem?_of_prefix {l1 l2 : List String} (hp : l1 <+: l2) {i : Nat} (hi : i < l1.length) :
+    l2[i]? = l1[i]? := by
+  obtain ⟨t, rfl⟩ := hp
+  rw [List.getElem?_append_left hi]
+
+/-- `getPeerIndex` in name mode: the index is the position in the extended table -/
+theorem getPeerIndex_name (tbl : NameTable) (f : Fe.Field α) :
+    getPeerIndex false tbl f =
+      some ((((faStep tbl f.raw).idxOf f.raw : Nat) : Int), faStep tbl f.raw) := by
+  unfold getPeerIndex faStep
+  simp only [Bool.false_eq_true, if_false]
+  by_cases h : f.raw ∈ tbl
+  · rw [if_pos (List.idxOf_lt_length_iff.mpr h), if_pos h]
+  · rw [if_neg (fun hh => h (List.idxOf_lt_length_iff.mp hh)), if_neg h,
+      List.idxOf_append_of_notMem h]
+    simp
+
+theorem getPeerIndex_raw (tbl : NameTable) (f : Fe.Field α) :
+    getPeerIndex true tbl f = f.parseInt0.map fun i => (i, tbl) := by
+  unfold getPeerIndex; simp
+
+/-- `getPeerIndex` over a sequence of fields, threading the table -/
+def indexAll (raw : Bool) : NameTable → List (Fe.Field α) → Option (List Int × NameTable)
+  | tbl, [] => some ([], tbl)
+  | tbl, f :: fs =>
+    match getPeerIndex raw tbl f with
+    | none => none
+    | some (i, tbl1) =>
+      match indexAll raw tbl1 fs with
+      | none => none
+      | some (is, t) => some (i :: is, t)
+
+theorem indexAll_name (tbl : NameTable) (fs : List (Fe.Field α)) :
+    indexAll false tbl fs =
+      some (fs.map (fun f => (((faFrom tbl (fs.map (·.raw))).idxOf f.raw : Nat) : Int)),
+        faFrom tbl (fs.map (·.raw))) := by
+  induction fs generalizing tbl with
+  | nil => rfl
+  | cons f fs ih =>
+    rw [indexAll, getPeerIndex_name]
+    simp only
+    rw [ih]
+    simp only [List.map_cons, faFrom_cons, Option.some.injEq, Prod.mk.injEq, List.cons.injEq,
+      and_true, Int.natCast_inj]
+    exact (idxOf_of_prefix (faFrom_prefix _ _) (mem_faStep.mpr (Or.inr rfl))).symm
+
+/-! ### the CLI CSV loaders -/
+
+/-- the data records of a CSV file: the first record is skipped when a header is expected -/
+def dataRecs (hasHeader : Bool) (recs : List (Record α)) : List (Record α) :=
+  if hasHeader then recs.drop 1 else recs
+
+/-- the table after looking up `names` (unchanged in raw mode) -/
+def tblAfter (raw : Bool) (tbl : NameTable) (names : List String) : NameTable :=
+  if raw then tbl else faFrom tbl names
+
+/-- names looked up by a local-trust file: `from`, `to` of each data record, in order -/
+def mNames (recs : List (Record α)) : List String :=
+  recs.flatMap fun r => (r.take 2).map (·.raw)
+
+/-- names looked up by a trust-vector file: the first field of each data record -/
+def vNames (recs : List (Record α)) : List String :=
+  recs.flatMap fun r => (r.take 1).map (·.raw)
+
+/-- `i` is the index the CLI uses for field `f` (relative to the final name table `tbl`):
+    raw mode — the `ParseInt(s,0,0)` value, which must be non-negative;
+    name mode — the position of the name in the table. -/
+def IdxOf (raw : Bool) (tbl : NameTable) (f : Fe.Field α) (i : Int) : Prop :=
+  if raw then f.parseInt0 = some i ∧ 0 ≤ i
+  else f.raw ∈ tbl ∧ i = ((tbl.idxOf f.raw : Nat) : Int)
+
+/-- record `r` of a local-trust CSV yields the inline entry `e` -/
+def MRel (raw : Bool) (tbl : NameTable) (r : Record α) (e : Int × Int × α) : Prop :=
+  ∃ f0 f1 rest, r = f0 :: f1 :: rest ∧ IdxOf raw tbl f0 e.1 ∧ IdxOf raw tbl f1 e.2.1 ∧
+    ((rest = [] ∧ e.2.2 = one) ∨ ∃ f2, rest = [f2] ∧ f2.float = some e.2.2)
+
+/-- record `r` of a trust-vector CSV yields the inline entry `e` -/
+def VRel (raw : Bool) (tbl : NameTable) (r : Record α) (e : Int × α) : Prop :=
+  ∃ f0 rest, r = f0 :: rest ∧ IdxOf raw tbl f0 e.1 ∧ lt e.2 zero = false ∧
+    ((rest = [] ∧ e.2 = one) ∨ ∃ f1, rest = [f1] ∧ f1.float = some e.2)
+
+theorem tblAfter_prefix (raw : Bool) (tbl : NameTable) (names : List String) :
+    tbl <+: tblAfter raw tbl names := by
+  unfold tblAfter; split
+  · exact List.prefix_refl _
+  · exact faFrom_prefix _ _
+
+theorem tblAfter_nil (raw : Bool) (tbl : NameTable) : tblAfter raw tbl [] = tbl := by
+  unfold tblAfter; split <;> rfl
+
+theorem tblAfter_append (raw : Bool) (tbl : NameTable) (a b : List String) :
+    tblAfter raw tbl (a ++ b) = tblAfter raw (tblAfter raw tbl a) b := by
+  unfold tblAfter; cases raw
+  · simp [faFrom_append]
+  · simp
+
+theorem IdxOf.mono {raw : Bool} {t1 t2 : NameTable} {f : Fe.Field α} {i : Int}
+    (h : IdxOf raw t1 f i) (hp : t1 <+: t2) : IdxOf raw t2 f i := by
+  unfold IdxOf at h ⊢
+  cases raw
+  · simp only [Bool.false_eq_true, if_false] at h ⊢
+    exact ⟨hp.subset h.1, by rw [idxOf_of_prefix hp h.1]; exact h.2⟩
+  · exact h
+
+/-- one `getPeerIndex` call that returned a non-negative index -/
+theorem getPeerIndex_spec {raw : Bool} {tbl tbl1 : NameTable} {f : Fe.Field α} {i : Int}
+    (h : getPeerIndex raw tbl f = some (i, tbl1)) (hi : ¬ i < 0) :
+    tbl1 = tblAfter raw tbl [f.raw] ∧ IdxOf raw tbl1 f i := by
+  cases raw
+  · rw [getPeerIndex_name] at h
+    simp only [Option.some.injEq, Prod.mk.injEq] at h
+    obtain ⟨h1, h2⟩ := h
+    subst h2
+    refine ⟨rfl, ?_⟩
+    unfold IdxOf
+    simp only [Bool.false_eq_true, if_false]
+    exact ⟨mem_faStep.mpr (Or.inr rfl), h1.symm⟩
+  · rw [getPeerIndex_raw] at h
+    cases hp : f.parseInt0 with
+    | none => rw [hp] at h; cases h
+    | some j =>
+      rw [hp] at h
+      simp only [Option.map_some, Option.some.injEq, Prod.mk.injEq] at h
+      obtain ⟨h1, h2⟩ := h
+      subst h1 h2
+      refine ⟨rfl, ?_⟩
+      unfold IdxOf
+      simp only [if_true]
+      exact ⟨hp, by omega⟩
+
+theorem dataRecs_cons_true (r : Record α) (rs : List (Record α)) : dataRecs true (r :: rs) = rs := rfl
+theorem dataRecs_false (rs : List (Record α)) : dataRecs false rs = rs := rfl
+
+theorem mNames_cons2 (f0 f1 : Fe.Field α) (rest : Record α) (rs : List (Record α)) :
+    mNames ((f0 :: f1 :: rest) :: rs) = [f0.raw] ++ ([f1.raw] ++ mNames rs) := by
+  simp [mNames]
+
+theorem vNames_cons1 (f0 : Fe.Field α) (rest : Record α) (rs : List (Record α)) :
+    vNames ((f0 :: rest) :: rs) = [f0.raw] ++ vNames rs := by
+  simp [vNames]
+
+/-- everything a successful run of the matrix loader loop implies -/
+theorem loadM_go_spec (raw : Bool) (recs : List (Record α)) (skip : Bool) (tbl : NameTable)
+    (size : Int) (acc : List (Int × Int × α)) (m : Oapi.IMatrix α) (tbl' : NameTable)
+    (h : cliLoadMatrix.go raw recs skip tbl size acc = some (m, tbl')) :
+    (∀ r ∈ recs, 2 ≤ r.length ∧ r.length ≤ 3) ∧
+    tbl' = tblAfter raw tbl (mNames (dataRecs skip recs)) ∧
+    ∃ es, List.Forall₂ (MRel raw tbl') (dataRecs skip recs) es ∧ m.entries = acc.reverse ++ es ∧
+      m.size = es.foldl (fun s e => max s (max (e.1 + 1) (e.2.1 + 1))) size ∧ m.size ≠ 0 := by
+  induction recs generalizing skip tbl size acc with
+  | nil =>
+    unfold cliLoadMatrix.go at h
+    split at h
+    · cases h
+    · rename_i hs
+      simp only [Option.some.injEq, Prod.mk.injEq] at h
+      obtain ⟨h1, h2⟩ := h
+      subst h1 h2
+      refine ⟨by simp, ?_, [], ?_, by simp, rfl, hs⟩
+      · cases skip <;> simp [dataRecs, mNames, tblAfter_nil]
+      · cases skip <;> exact List.Forall₂.nil
+  | cons r rs ih =>
+    unfold cliLoadMatrix.go at h
+    split at h
+    · cases h
+    · rename_i hlen
+      have hlen' : 2 ≤ r.length ∧ r.length ≤ 3 := by
+        simp only [Bool.or_eq_true, decide_eq_true_eq, not_or] at hlen; omega
+      split at h
+      · -- header record
+        rename_i hskip
+        subst hskip
+        obtain ⟨a, b, c⟩ := ih false tbl size acc h
+        refine ⟨?_, ?_, ?_⟩
+        · intro x hx
+          rcases List.mem_cons.mp hx with rfl | hx
+          · exact hlen'
+          · exact a x hx
+        · rw [dataRecs_cons_true]; rw [dataRecs_false] at b; exact b
+        · rw [dataRecs_cons_true]; rw [dataRecs_false] at c; exact c
+      · rename_i hskip
+        have hskip : skip = false := by simpa using hskip
+        subst hskip
+        split at h
+        · rename_i f0 f1 rest
+          split at h
+          · cases h
+          · rename_i from_ tbl1 hg0
+            split at h
+            · cases h
+            · rename_i hneg0
+              split at h
+              · cases h
+              · rename_i to_ tbl2 hg1
+                split at h
+                · cases h
+                · rename_i hneg1
+                  have key : ∃ v, ((rest = [] ∧ v = one) ∨ ∃ f2, rest = [f2] ∧ f2.float = some v) ∧
+                      cliLoadMatrix.go raw rs false tbl2 (max size (max (from_ + 1) (to_ + 1)))
+                        ((from_, to_, v) :: acc) = some (m, tbl') := by
+                    cases rest with
+                    | nil => exact ⟨one, Or.inl ⟨rfl, rfl⟩, h⟩
+                    | cons f2 rest' =>
+                      have hr : rest' = [] := by
+                        simp only [List.length_cons] at hlen'
+                        exact List.length_eq_zero_iff.mp (by omega)
+                      subst hr
+                      simp only at h
+                      cases hf : f2.float with
+                      | none => rw [hf] at h; simp only [reduceCtorEq] at h
+                      | some v =>
+                        rw [hf] at h
+                        exact ⟨v, Or.inr ⟨f2, rfl, rfl⟩, h⟩
+                  obtain ⟨v, hv, h⟩ := key
+                  · obtain ⟨a, b, es, c1, c2, c3, c4⟩ := ih false tbl2 _ _ h
+                    obtain ⟨e0, i0⟩ := getPeerIndex_spec hg0 hneg0
+                    obtain ⟨e1, i1⟩ := getPeerIndex_spec hg1 hneg1
+                    rw [dataRecs_false] at b c1
+                    have htbl : tbl' = tblAfter raw tbl
+                        (mNames (dataRecs false ((f0 :: f1 :: rest) :: rs))) := by
+                      rw [dataRecs_false, mNames_cons2, tblAfter_append, tblAfter_append, ← e0,
+                        ← e1]
+                      exact b
+                    have hp2 : tbl2 <+: tbl' := by rw [b]; exact tblAfter_prefix _ _ _
+                    have hp1 : tbl1 <+: tbl' := by
+                      refine List.IsPrefix.trans ?_ hp2
+                      rw [e1]; exact tblAfter_prefix _ _ _
+                    refine ⟨?_, htbl, (from_, to_, v) :: es, ?_, ?_, ?_, c4⟩
+                    · intro x hx
+                      rcases List.mem_cons.mp hx with rfl | hx
+                      · exact hlen'
+                      · exact a x hx
+                    · rw [dataRecs_false]
+                      refine List.Forall₂.cons ?_ c1
+                      exact ⟨f0, f1, rest, rfl, i0.mono hp1, i1.mono hp2, hv⟩
+                    · rw [c2]; simp
+                    · rw [c3]; rfl
+        · cases h
 
 end EtVerif.FeL
